@@ -67,8 +67,8 @@ func isHigh(profile int) bool { return refavc.HasExtProfile(profile) }
 // (no parameter sets) and every exported field is then assigned.
 func buildRecord(ref *refavc.Record) (*avc.AVCDecoderConfigurationRecord, error) {
 	x := avc.NewAVCDecoderConfigurationRecord()
-	if ref.Compatibility != 0 {
-		seed, err := (&refavc.Record{Version: 1, Profile: ref.Profile, Compatibility: ref.Compatibility, Level: ref.Level, LengthSize: ref.LengthSize}).WriteBase(nil)
+	if ref.Compatibility != 0 || ref.Version != 1 {
+		seed, err := (&refavc.Record{Version: ref.Version, Profile: ref.Profile, Compatibility: ref.Compatibility, Level: ref.Level, LengthSize: ref.LengthSize}).WriteBase(nil)
 		if err != nil {
 			panic(err)
 		}
@@ -568,7 +568,7 @@ func TestVerif_C12_Records(t *testing.T) {
 		"0..255 PPS) with 1..3-byte units, then %d PRNG records: profile from the named profile_idc values or any byte, compatibility/level any byte, length size 1..4, 0..31 SPS and 0..255 PPS "+
 		"(80%% 0..3, 16%% up to the maximum, 4%% exactly 31/255), unit sizes from {1,2,255,256,65535} and 3..64; for profile_idc 100/110/122/144 additionally the same record with a random "+
 		"chroma/bit-depth/SPS-extension tail; distinct = (length size, SPS count class, PPS count class, high profile?, set of boundary unit sizes) parsed from the bytes the library wrote", n))
-	sweep := 256*4 + 256*4 + 256 + 32*5*4 + 256 + 6*5*2*4
+	sweep := 256*4 + 256*4 + 256 + 32*5*4 + 256 + 6*5*2*4 + 256
 	m.Require("evaluations", int64(sweep+n))
 	m.Require("reference_records_read", int64(sweep+n))
 	m.Require("reference_records_with_ext_read", 100)
@@ -613,6 +613,13 @@ func TestVerif_C12_Records(t *testing.T) {
 				})
 			}
 		}
+	}
+	// configurationVersion: 1 today, but a record read from a file is written back as it was
+	for v := 0; v < 256; v++ {
+		v := v
+		sweeps = append(sweeps, func(r *vrand.Rand) *refavc.Record {
+			return &refavc.Record{Version: v, Profile: r.Pick(66, 77, 100), Compatibility: r.Pick(0, 0xc0), Level: 31, LengthSize: r.Range(1, 4), SPS: tiny(r, 1, 7), PPS: tiny(r, 1, 8)}
+		})
 	}
 	// pairs of boundary values: fields that look "unset" together (profile 0 with level 0), with parameter sets long enough
 	// to carry profile/level bytes of their own (a record's fields are what it says, never what its SPS says)
